@@ -27,6 +27,11 @@ pub enum Op {
     /// rewind the wallet to (max scanned or tip) - depth; `reorg` = the chain abandons the blocks
     /// above the height the wallet actually rewound to, else the chain keeps them (forget+rescan)
     Truncate { depth: u8, reorg: bool },
+    /// if some wallet transaction is currently orphaned (observed in a block at height h that a rewind
+    /// removed), extend the chain with empty blocks and move the wallet's tip to exactly h + 39
+    /// (`past` = false: the last tip at which the orphan still counts) or h + 40 (`past` = true: the
+    /// first tip at which it has expired)
+    ExpiryProbe { which: u32, past: bool },
 }
 
 pub fn arb_op(na: u8, nf: u8, iw: bool, long: bool) -> impl Strategy<Value = Op> {
@@ -37,6 +42,7 @@ pub fn arb_op(na: u8, nf: u8, iw: bool, long: bool) -> impl Strategy<Value = Op>
         6 => (any::<u32>(), if long { 1u16..160 } else { 1u16..12 }).prop_map(|(sel, len)| Op::Scan { sel, len }),
         5 => (any::<u32>(), any::<bool>(), if long { 1u16..160 } else { 1u16..10 }).prop_map(|(which, from_end, chunk)| Op::ScanGap { which, from_end, chunk }),
         2 => (0u8..8, any::<bool>()).prop_map(|(depth, reorg)| Op::Truncate { depth, reorg }),
+        2 => (any::<u32>(), any::<bool>()).prop_map(|(which, past)| Op::ExpiryProbe { which, past }),
     ]
 }
 
@@ -71,7 +77,22 @@ pub fn arb_case(max_ops: usize, p_long: u32) -> impl Strategy<Value = Case> {
         } else {
             Just(vec![]).boxed()
         };
-        (prefix, proptest::collection::vec(arb_op(na, nf, iw, long), 3..max_ops)).prop_map(move |(mut pre, ops)| {
+        // mostly single ops; sometimes a rewind followed by the two orphan-expiry probes (a scan may come between)
+        let chunk = prop_oneof![
+            12 => arb_op(na, nf, iw, long).prop_map(|o| vec![o]),
+            2 => (0u8..6, any::<bool>(), any::<u32>(), proptest::option::of((any::<u32>(), any::<bool>(), 1u16..8)))
+                .prop_map(|(depth, reorg, which, scan)| {
+                    let mut v = vec![Op::Truncate { depth, reorg }];
+                    v.push(Op::ExpiryProbe { which, past: false });
+                    if let Some((w, from_end, chunk)) = scan {
+                        v.push(Op::ScanGap { which: w, from_end, chunk });
+                    }
+                    v.push(Op::ExpiryProbe { which, past: true });
+                    v
+                }),
+        ];
+        (prefix, proptest::collection::vec(chunk, 3..max_ops)).prop_map(move |(mut pre, chunks)| {
+            let ops: Vec<Op> = chunks.into_iter().flatten().collect();
             pre.extend(ops);
             Case { world: world.clone(), long, ops: pre, final_chunk }
         })
@@ -88,6 +109,7 @@ pub struct Flags {
     pub truncate_refused: u32,
     pub truncations: u32,
     pub scans: u32,
+    pub expiry_probes: u32,
 }
 
 /// maximal unscanned ranges [start, end] on the current branch
@@ -282,6 +304,31 @@ impl Hist {
                     let chunk = (*chunk as u32).min(e - s + 1);
                     let from = if *from_end { e + 1 - chunk } else { s };
                     self.scan(from, chunk, step)?;
+                }
+            }
+            Op::ExpiryProbe { which, past } => {
+                let chain = &self.chain;
+                let mut hs: Vec<u32> = self
+                    .ledger
+                    .known_notes
+                    .iter()
+                    .map(|n| chain.notes[*n].block_id)
+                    .chain(self.ledger.links.iter().map(|(_, sb, _)| *sb))
+                    .filter(|b| !self.ledger.scanned.contains(b))
+                    .map(|b| chain.blocks[b].height)
+                    .collect();
+                hs.sort();
+                hs.dedup();
+                if !hs.is_empty() {
+                    let h = hs[vcore::pick_index(*which, hs.len())];
+                    let target = h + DEFAULT_TX_EXPIRY_DELTA - 1 + *past as u32;
+                    if self.w.chain_height().map_or(true, |t| t < target) {
+                        while self.chain.tip_height() < target {
+                            self.chain.add_block(&self.world, &BlockSpec::default());
+                        }
+                        self.w.update_tip(target).map_err(|e| Fail::new("update-tip-failed", format!("{step}: {e}")))?;
+                        self.flags.expiry_probes += 1;
+                    }
                 }
             }
             Op::Truncate { depth, reorg } => {
